@@ -78,6 +78,8 @@ func (sess *hopSession) checkIntent(intent authgrants.Intent, principalCert *cer
 // checks if the session has an auth grant to perform cmd
 func (sess *hopSession) checkCmd(cmd string, shell bool) (sessID, error) {
 	logrus.Info("target: received request to perform: ", cmd)
+	sess.actionsLock.Lock()
+	defer sess.actionsLock.Unlock()
 	for i, ag := range sess.authorizedActions {
 		if now := thunks.TimeNow(); !now.Before(ag.StartTime) && now.Before(ag.ExpTime) {
 			if !shell && ag.GrantType == authgrants.Command {
